@@ -16,6 +16,8 @@ for p in props:
             if g.get("disabled"):
                 continue
             for o in g["obligations"]:
+                if o.get("tier") == "parked":
+                    continue
                 kinds[o["kind"]] = kinds.get(o["kind"], 0) + 1
         level = u.get("level", "proof")
         checks.append({
